@@ -56,6 +56,14 @@ pub fn hash64(bytes: &[u8]) -> u64 {
 
 pub const VERIF_DIR: &str = "/verif";
 
+/// Where evidence, replays and scratch files go. Normally `/verif`; `VERIF_OUT_DIR` redirects them
+/// (used when a scratch copy of the harness is run against a scratch worktree of the repository, so
+/// that such a run never touches the committed evidence). Known findings are always read from the
+/// committed file.
+pub fn out_dir() -> String {
+    std::env::var("VERIF_OUT_DIR").unwrap_or_else(|_| VERIF_DIR.to_string())
+}
+
 /// A violation found by a monitor. `sig` identifies it for known-finding purposes.
 #[derive(Clone, Debug)]
 pub struct Violation {
@@ -198,7 +206,7 @@ impl Report {
             "wall_s": wall,
             "violations": self.violations.len(),
         });
-        let dir = format!("{VERIF_DIR}/evidence");
+        let dir = format!("{}/evidence", out_dir());
         let _ = std::fs::create_dir_all(&dir);
         let path = format!("{dir}/{}.json", self.id);
         let tmp = format!("{path}.tmp");
@@ -217,7 +225,7 @@ impl Report {
             let _ = writeln!(out, "KNOWN-FINDING: property={} {} ({})", self.id, sig, what);
         }
         if !self.violations.is_empty() {
-            let rdir = format!("{VERIF_DIR}/replays");
+            let rdir = format!("{}/replays", out_dir());
             let _ = std::fs::create_dir_all(&rdir);
             if let Ok(rd) = std::fs::read_dir(&rdir) {
                 for e in rd.flatten() {
